@@ -60,10 +60,11 @@ Proof. intro H. inversion H as [|p kv kv' Hk]; subst; [constructor|apply Hk]. Qe
 Theorem key_order_neutral_prio e s0 sts s0' sts' :
   Forall NewZ (s0 :: sts) -> Forall NewZ (s0' :: sts') -> forallb is_dictk (s0 :: sts) = true -> forallb is_dictk (s0' :: sts') = true ->
   Forall2 peqvp (map perase (s0 :: sts)) (map perase (s0' :: sts')) ->
+  hcompat (perase s0) (map perase sts) -> hcompat (perase s0') (map perase sts') ->
   exists n m, flatten e (s0 :: sts) = Ok n /\ flatten e (s0' :: sts') = Ok m /\ peqvp (perase n) (perase m).
 Proof.
-  intros HF HF' HD HD' H2.
-  destruct (flatten_prio e s0 sts HF HD) as (n & En & Pn). destruct (flatten_prio e s0' sts' HF' HD') as (m & Em & Pm).
+  intros HF HF' HD HD' H2 Hh Hh'.
+  destruct (flatten_prio e s0 sts HF HD Hh) as (n & En & Pn). destruct (flatten_prio e s0' sts' HF' HD' Hh') as (m & Em & Pm).
   exists n, m. split; [exact En|]. split; [exact Em|]. rewrite Pn, Pm.
   cbn [map] in H2. inversion H2 as [|? ? ? ? H0 Hr]; subst.
   assert (W : forall l, Forall NewZ l -> Forall pwf (map perase l)).
